@@ -28,12 +28,22 @@ def generic_vec(seed, n=3, scale=3.0):
     return np.array([round(rnd.uniform(-scale, scale), 3) for _ in range(n)])
 
 
+def _unit(v):
+    v = np.array(v, dtype=float)
+    return v / np.linalg.norm(v)
+
+
 def axes(seed, small=False):
+    """coordinate axes, face / space diagonals (exact ties between matrix diagonal entries), one seeded generic axis, and one
+    off-axis direction dominated by each of +x, +y, +z, -x, -y, -z (the four Shepperd branches are selected by the dominant
+    component and their off-axis terms and signs only show for such axes)"""
     a = [np.array([1.0, 0, 0]), np.array([0, 1.0, 0]), np.array([0, 0, 1.0]),
          np.array([1.0, 1.0, 0]) / S2, np.array([0, -1.0, 1.0]) / S2,
-         np.array([1.0, 1.0, 1.0]) / S3, generic_axis(seed)]
+         np.array([1.0, 1.0, 1.0]) / S3, generic_axis(seed),
+         _unit([0.9, 0.3, -0.3]), _unit([0.3, 0.9, 0.3]), _unit([-0.3, 0.3, 0.9]),
+         _unit([-0.9, 0.3, 0.3]), _unit([0.3, -0.9, -0.3]), _unit([0.3, -0.3, -0.9])]
     if small:
-        return [a[0], a[2], a[3], a[6]]
+        return [a[0], a[2], a[3], a[6], a[8], a[12]]
     return a
 
 
@@ -56,6 +66,18 @@ def vecs(seed, n=3, small=False):
     return v
 
 
+def euler_edge_rotvecs():
+    """rotation vectors of 3-2-1 Euler rotations with non-zero yaw and roll whose pitch is just outside the documented
+    +-1e-3 rad gimbal band (1.0001e-3, 1.2e-3, 5e-3 from either pole): exactness is promised there"""
+    out = []
+    for sgn in (1.0, -1.0):
+        for d in (1.0001e-3, 1.2e-3, 5e-3):
+            for psi, phi in ((0.3, -0.4), (-2.0, 1.0)):
+                R = ref.R_from_euler321([psi, sgn * (PI / 2 - d), phi])
+                out.append(ref.logm_rot(R))
+    return out
+
+
 def rotvecs(seed, angles=None, small=False):
     """rotation vectors axis*angle; zero only once"""
     out = []
@@ -68,6 +90,8 @@ def rotvecs(seed, angles=None, small=False):
                 continue
             seen.add(k)
             out.append(v)
+    if angles is None and not small:
+        out.extend(euler_edge_rotvecs())
     return out
 
 
@@ -98,7 +122,7 @@ def rot_reps(kind, v, include_noncanonical=True):
         out.append(("R", R.reshape(-1, order="F").copy(), R))
     elif kind == "Euler":
         e = ref.euler321_of_R(R)
-        if abs(abs(e[1]) - PI / 2) > 1.5e-3:
+        if abs(abs(e[1]) - PI / 2) > 1.0e-3 * (1 + 1e-7):
             out.append(("e", e, ref.R_from_euler321(e)))
     else:
         raise ValueError(kind)
